@@ -861,9 +861,11 @@ def http_cases(ctx, cases=None):
 
 
 def run(ctx):
-    ctx.audit()
+    ctx.audit(extra_modules=["StreamzVerif.Props.SourceFuture"])
     tcp_cases(ctx)
     http_cases(ctx)
+    from .. import corr_sourcefuture
+    corr_sourcefuture.run(ctx, "C18", 80 if not ctx.thorough() else 4000)
     ctx.assumptions += [
         "one event loop, one thread: start()/stop() are called on the loop thread (cross-thread races with a source on the background loop are out of scope)",
         "suspension points inside a polling cycle are not distinguished by the model (a cycle is atomic between begin and end); the harness places calls at each of them",
@@ -903,7 +905,13 @@ def run(ctx):
 
 
 def replay(ctx, data):
-    ctx.audit()
+    ctx.audit(extra_modules=["StreamzVerif.Props.SourceFuture"])
+    if data["case"].get("source_future"):
+        from .. import corr_sourcefuture
+        corr_sourcefuture.CORPUS[:] = [data["case"]["source_future"]]
+        corr_sourcefuture.run(ctx, "C18", 0)
+        ctx.coverage["rule"] = "replay of one recorded case"
+        return
     scratch = tempfile.mkdtemp(prefix="verif-c18-")
     try:
         case = data["case"]
